@@ -13,7 +13,9 @@ import fuzzylite as fl
 PID = "C18"
 MODULES = ["FlVerif.Props.C18"]
 NAMESPACE = "C18"
-TIE_A = ["code:fuzzylite.operation.Operation.increment", "code:fuzzylite.exporter.FldExporter.write_from_scope"]
+TIE_A = ["code:fuzzylite.operation.Operation.increment", "code:fuzzylite.exporter.FldExporter.write_from_scope",
+         "code:fuzzylite.exporter.FldExporter.write_from_reader", "code:fuzzylite.exporter.FldExporter.header",
+         "code:fuzzylite.exporter.FldExporter.write"]
 RULE = ("engines with 1-4 input variables (Mamdani and Takagi-Sugeno) x requested sizes v (every perfect n-th power <= 2000 "
         "and its neighbours, random v, v = 1) x both scopes x active-variable subsets x header/inputs/outputs switches x "
         "separators x decimals; reader contents with comments, blank lines, indentation and skipped lines. non-trivial: "
